@@ -113,6 +113,10 @@ type State struct {
 	factSet map[string]bool
 	alloc   *Term // next fresh object id (all live objects are < alloc)
 	alloc0  *Term
+	// published: this call may already have made an object it allocated reachable for other goroutines
+	// (a store into the heap, a map update, a call other than a mutex operation, go, send, select).
+	// While false, state read under a freshly acquired lock cannot refer to objects allocated by this call.
+	published bool
 	old     map[string]*Term // heaps at function entry
 	ghost   map[string]Val   // ghost parameters
 	calls   []callRec
@@ -142,7 +146,7 @@ func (s *State) clone() *State {
 		heaps:   make(map[string]*Term, len(s.heaps)),
 		facts:   append([]*Term(nil), s.facts...),
 		factSet: make(map[string]bool, len(s.factSet)),
-		alloc:   s.alloc, alloc0: s.alloc0, old: s.old,
+		alloc:   s.alloc, alloc0: s.alloc0, old: s.old, published: s.published,
 		ghost: s.ghost,
 		calls: append([]callRec(nil), s.calls...),
 		locks: make(map[string]string, len(s.locks)),
